@@ -121,6 +121,14 @@ theorem P2.max {a b : Nat} (ha : P2 a) (hb : P2 b) : P2 (Nat.max a b) := by
 theorem P2.dvd_two_pow_64 {a : Nat} (ha : P2 a) (h : a < 2 ^ 64) : a ∣ 2 ^ 64 :=
   ha.dvd_of_le ⟨64, rfl⟩ (Nat.le_of_lt h)
 
+/-- aligning an `a`-aligned address up to a power of two `b` moves it by at most `b - a`
+    (not at all if `b ≤ a`) -/
+theorem upAlign_le_p2 {x a b : Nat} (ha : P2 a) (hb : P2 b) (hax : a ∣ x) :
+    upAlign x b ≤ x + (b - a) := by
+  rcases ha.dvd_or_dvd hb with h | h
+  · exact upAlign_le_add_sub hb.pos hax h
+  · rw [upAlign_eq_self hb.pos (Nat.dvd_trans h hax)]; omega
+
 theorem two_pow_64 : (2:Nat) ^ 64 = 18446744073709551616 := by decide
 
 /-! ## Bit masks -/
